@@ -47,7 +47,7 @@ class CallGraph:
                             if d == "std::iter::Iterator::next" and self_dyn and "Iterator<Item = usize>" in targs[0]:
                                 for n in self.dyn_next_impls:
                                     es.add(n)
-                            elif fn.get("trait") and (fn.get("res_kind") == "virtual" or self_dyn):
+                            elif fn.get("trait") and strip_lt(fn["trait"]) != "std::iter::Iterator" and (fn.get("res_kind") == "virtual" or self_dyn):
                                 tr = strip_lt(fn["trait"])
                                 mname = d.split("::")[-1]
                                 for lb in facts.bodies:
